@@ -48,6 +48,7 @@ type c18st struct {
 	accepted map[string]*log.Tag
 	nAcc     int64
 	nRej     int64
+	live     bool
 }
 
 // try registers s (twice when accepted) and compares with the oracle.
@@ -110,6 +111,9 @@ func (st *c18st) checkAll(base []string, when string) {
 	// tags handed out earlier must still be THE tags of their names (the registry has grown since)
 	n := 0
 	for name, first := range st.accepted {
+		if st.live { // registration is refused while a configuration is live (C16): no re-registration then
+			break
+		}
 		if n++; n > 3000 {
 			break
 		}
@@ -180,6 +184,56 @@ func c18Worker(w *W) {
 		return
 	}
 	switch w.Spec.Kind {
+	case "lifecycle":
+		// the registry across Refresh/Destroy cycles: names registered before the first Refresh, between cycles and after a
+		// failed Refresh must all be listed (exactly once, sorted), whatever Refresh/Destroy do with the registered tags
+		registerMonitorPlugins()
+		r := w.Rng()
+		segs := []string{"ab", "cd", "svc", "x1", "req", "in", "z9", "q"}
+		gen := func() string {
+			k := 1 + r.IntN(4)
+			var parts []string
+			for i := 0; i < k; i++ {
+				parts = append(parts, segs[r.IntN(len(segs))]+fmt.Sprint(r.IntN(40)))
+			}
+			t := strings.Join(parts, "_")
+			if r.IntN(2) == 0 {
+				t = "_" + t
+			}
+			switch r.IntN(12) {
+			case 0:
+				t += "_" // invalid
+			case 1:
+				t = strings.ToUpper(t[:1]) + t[1:]
+			}
+			return t
+		}
+		for round := 0; round < int(w.Spec.N); round++ {
+			for i := 1 + r.IntN(6); i > 0; i-- {
+				plain(gen())
+			}
+			st.checkAll(base, fmt.Sprintf("round %d before Refresh", round))
+			cfg := map[string]string{"appender.d.type": "Discard", "logger.root.type": "Logger", "logger.root.appenderRef.ref": "d"}
+			switch round % 4 {
+			case 1:
+				cfg["logger.l1.type"], cfg["logger.l1.tags"], cfg["logger.l1.appenderRef.ref"] = "Logger", "_ab1_*,svc2", "d"
+			case 2:
+				cfg["logger.l1.type"] = "NoSuchLoggerType" // a failing Refresh
+			case 3:
+				cfg["logger.l1.type"], cfg["logger.l1.tags"], cfg["logger.l1.appenderRef.ref"] = "AsyncLogger", "cd3_*", "d"
+			}
+			pv, _ := catch(func() { _ = log.Refresh(cfg) })
+			if pv != nil {
+				w.Violate("C18:refresh-panic", fmt.Sprintf("Refresh panicked: %v", pv), cfg)
+			}
+			st.live = true
+			st.checkAll(base, fmt.Sprintf("round %d after Refresh", round))
+			catch(log.Destroy)
+			st.live = false
+			st.checkAll(base, fmt.Sprintf("round %d after Destroy", round))
+			w.Count("registry_checks_across_lifecycle", 3)
+		}
+		w.Sample(map[string]any{"kind": "lifecycle", "rounds": w.Spec.N, "accepted": st.nAcc, "rejected": st.nRej})
 	case "enum":
 		L := int(w.Spec.N)
 		n := 0
@@ -420,7 +474,7 @@ func init() {
 		ID: "C18", Level: "exploration", MinDistinct: 100,
 		Rule: "names: (a) every string of length 1..5 (quick) / 1..7 (thorough) over the 10-symbol alphabet {a z 0 9 _ A - space . 0x80}, exhaustively; (b) every composition of segment lengths for 1-5 segments, " +
 			"± leading underscore, ± trailing underscore, ± doubled underscore at total lengths 2..8 and 33..38 (quick) / 2..38 (thorough); (c) seeded random names (raw bytes, near-valid, mutated valid); " +
-			"(d) the app/biz/rpc helpers with valid and invalid parts. Each name is registered (twice when accepted) in a fresh worker process; oracle = ^_?[a-z0-9]+(_[a-z0-9]+){0,3}$ with 3<=len<=36, and GetAllTags() must equal " +
+			"(d) the app/biz/rpc helpers with valid and invalid parts; (e) registrations interleaved with successful and failing Refresh/Destroy cycles (the list is compared before Refresh, while live and after Destroy). Each name is registered (twice when accepted) in a fresh worker process; oracle = ^_?[a-z0-9]+(_[a-z0-9]+){0,3}$ with 3<=len<=36, and GetAllTags() must equal " +
 			"the pre-registered names plus exactly the accepted ones. distinct_nontrivial = distinct accepted names per worker summed over workers (workers enumerate disjoint spaces except (c),(d), which may overlap others: counted per worker).",
 		Assumptions: []string{"tags pre-registered by the library's own init (TagAppDef, TagBizDef) are read once at worker start and treated as registered names"},
 		Worker:      c18Worker,
@@ -457,6 +511,11 @@ func init() {
 			for i := 0; i < 2; i++ {
 				s := d.NewSpec("helpers", fmt.Sprintf("help-%d", i), i, 2)
 				s.N = d.Pick(10000, 100000)
+				specs = append(specs, s)
+			}
+			for i := 0; i < 2; i++ {
+				s := d.NewSpec("lifecycle", fmt.Sprintf("life-%d", i), i, 2)
+				s.N = d.Pick(300, 5000)
 				specs = append(specs, s)
 			}
 			d.RunWorkers(specs, 16)
